@@ -202,6 +202,46 @@ NoFireOverridden == \A id \in OvIds(Cases[w]) : val[id] = OvValue(Cases[w], id)
 \* a firing never changes a value that is already there
 FireOnce == [][\A id \in DOMAIN val : id \in DOMAIN val' /\ val'[id] = val[id]]_cvars
 
+
+-----------------------------------------------------------------------------
+\* ---- C08: ExcelModel.compile(inputs, outputs) --------------------------------
+\* The compiled function pre-evaluates, without the inputs, everything that can
+\* be evaluated, freezes those values, and later evaluates the rest from the
+\* frozen values and the arguments.
+CONSTANT SelfPath   \* TRUE: as the code does, a range reads its unpopulated member
+                    \* cells from the running solution with no dependency edge;
+                    \* FALSE: an unpopulated input cell is a dependency like any other
+Ins(W) == {k \in DOMAIN W.ov : k # "_NONE_"}
+DependsOnInput(W, id) ==
+  LET c == W.cells[id]
+  IN c.k \in {"f", "af"} /\ \E d \in ExprIds(W, c.e) : d \in Ins(W) /\ (~SelfPath \/ Populated(W, d))
+
+PreFireable(W, v, id) == Fireable(W, v, id) /\ ~DependsOnInput(W, id)
+                         /\ (W.cells[id].k = "sp" => ~DependsOnInput(W, W.cells[id].anchor))
+RECURSIVE PreFix(_, _)
+PreFix(W, v) ==
+  LET F == {id \in CellIds(W) : PreFireable(W, v, id)}
+  IN IF F = {} THEN v
+     ELSE PreFix(W, [k \in DOMAIN v \cup F |-> IF k \in F THEN EvalCell(W, v, k) ELSE v[k]])
+PreBase(W) ==
+  LET S == {id \in CellIds(W) : W.cells[id].k = "c" /\ id \notin Ins(W)}
+  IN [id \in S |-> W.cells[id].v]
+Frozen(W) == PreFix(W, PreBase(W))          \* what compile() freezes
+\* the compiled function applied to the arguments W.ov
+Compiled(W) ==
+  LET fr == Frozen(W)
+      start == [id \in DOMAIN fr \cup Ins(W) |-> IF id \in Ins(W) THEN W.ov[id] ELSE fr[id]]
+  IN Fix(W, start)
+
+\* nothing frozen depends on an argument / the compiled function is the calculation
+FrozenIndependent == \A id \in DOMAIN Frozen(Cases[w]) :
+                        id \in Ins(Cases[w]) \/ Frozen(Cases[w])[id] = Sem(Cases[w])[id]
+CompiledEqualsSem == \A id \in CellIds(Cases[w]) :
+                        id \in DOMAIN Compiled(Cases[w]) /\ Compiled(Cases[w])[id] = Sem(Cases[w])[id]
+\* the named deviation: an input that is an unpopulated cell of a referenced range
+HasUnpopulatedInput == \E k \in Ins(Cases[w]) : ~Populated(Cases[w], k)
+CompileOK == (SelfPath /\ HasUnpopulatedInput) \/ (FrozenIndependent /\ CompiledEqualsSem)
+
 \* the expected valuation of every case, written once for the replay harness
 EmitSem ==
   /\ TLCGet("stats").distinct >= 0
